@@ -48,6 +48,11 @@ Definition same (a b : jv) : bool := jv_eqb (canon a) (canon b).
 Definition osame (a b : option jv) : bool :=
   match a, b with Some x, Some y => same x y | None, None => true | _, _ => false end.
 
+Fixpoint lsame (a b : list jv) : bool :=
+  match a, b with [], [] => true | x :: a', y :: b' => same x y && lsame a' b' | _, _ => false end.
+Definition olsame (a b : option (list jv)) : bool :=
+  match a, b with Some x, Some y => lsame x y | None, None => true | _, _ => false end.
+
 (* ---- cases ------------------------------------------------------------------------------------- *)
 Inductive wkind :=
   | WExact (f : fmt) (s : style)     (* sen.Bytes / oj.JSON with sorted keys: the text itself is compared *)
@@ -122,7 +127,10 @@ Inductive case :=
   (* bag-native of a bag holding v, and the contents of make-bag of that Lisp value (None = error) *)
   | CNative (v : jv) (native : lobj) (back : option jv)
   (* slip.SimpleObject of plain Go data and slip.Simplify of the result *)
-  | CBridge (g : gov) (o : lobj) (back : gov).
+  | CBridge (g : gov) (o : lobj) (back : gov)
+  (* json-parse of a text with several documents, the delivered bags kept and looked at after it returned:
+     their contents in order (None = error) and whether they are all different objects *)
+  | CMulti (docs : list jv) (text : bytes) (delivered : option (list jv)) (distinct : bool).
 
 Definition wfmt (w : wkind) : fmt := match w with WExact f _ => f | WUnsorted f => f | WPretty f => f end.
 Definition wpretty (w : wkind) : bool := match w with WPretty _ => true | _ => false end.
@@ -219,6 +227,9 @@ Definition check_case (c : case) : N :=
   | CBridge g o back =>
     let agree := lobj_eqb (simple_object g) o && gov_eqb (simplify o) back in
     code agree (plain g) (gov_eqb back (norm_gov g))
+  | CMulti docs text delivered distinct =>
+    let agree := olsame (parse_multi text) delivered && distinct in
+    code agree (olsame (parse_multi text) (Some docs)) (olsame delivered (Some docs) && distinct)
   end.
 
 Fixpoint check_all_from (i : N) (cs : list case) : list (N * N) :=
@@ -238,6 +249,7 @@ Definition in_guard (c : case) : bool :=
   | CPath pre _ _ _ _ => keys_unique pre
   | CNative v _ _ => native_ok v && keys_unique v
   | CBridge g _ _ => plain g
+  | CMulti docs text _ _ => olsame (parse_multi text) (Some docs)
   end.
 Definition guard_count (cs : list case) : N := N.of_nat (List.length (filter in_guard cs)).
 Definition outside_guard_broken (cs : list case) : N :=
